@@ -127,7 +127,15 @@ func (s *Server) livesimHandlerFunc(w http.ResponseWriter, r *http.Request) {
 		err := writeLiveMPD(log, w, cfg, s.Cfg.DrmCfg, a, mpdName, nowMS)
 		if err != nil {
 			log.Error("liveMPD", "err", err)
-			http.Error(w, err.Error(), http.StatusInternalServerError)
+			var badPeriods errPeriodDuration
+			switch {
+			case errors.Is(err, errNotFound):
+				http.Error(w, err.Error(), http.StatusNotFound)
+			case errors.Is(err, ErrAtoInfTimeline), errors.As(err, &badPeriods):
+				http.Error(w, err.Error(), http.StatusBadRequest)
+			default:
+				http.Error(w, err.Error(), http.StatusInternalServerError)
+			}
 			return
 		}
 	case ".mp4", ".m4s", ".cmfv", ".cmfa", ".cmft", ".jpg", ".jpeg", ".m4v", ".m4a":
